@@ -376,6 +376,28 @@ func chains(quick bool, n int) []chain {
 	add(chain{Flags: S("--seed 1"), Args: S("sample -k 1 -g g"), Seeded: true})
 	add(chain{Flags: S("--seed 1"), Args: []string{"put", "$r=urandint(1,1000)"}, Seeded: true})
 	add(chain{Flags: S("--seed 1"), Args: []string{"put", "$r=urandint(1,1000)", "then", "put", "$s=urandint(1,1000)"}, Seeded: true})
+	// boundary seeds: 0 must seed like any other value (not mean "no seed"), negative and hex spellings too
+	for _, sd := range []string{"0", "0x0", "-1", "0xcafefeed"} {
+		add(chain{Flags: []string{"--seed", sd}, Args: S("shuffle"), Seeded: true})
+		add(chain{Flags: []string{"--seed", sd}, Args: []string{"put", "$r=urandint(1,1000); $u=urand32()"}, Seeded: true})
+	}
+	// --hash-records / --no-hash-records on records wide enough to be indexed (12 fields and more): a name that was
+	// renamed, removed or re-created must resolve the same way with and without the index
+	for _, wc := range [][]string{
+		{"rename", "i,z", "then", "put", "$i=7"},
+		{"rename", "g,i2", "then", "rename", "f05,g", "then", "put", "$g=$g.\"x\"; $i2=1"},
+		{"cut", "-x", "-f", "i", "then", "put", "$i=1"},
+		{"put", "unset $i; $i=2; unset $f07; $f07=3"},
+		{"rename", "-r", "^f0(.)$,h\\1", "then", "put", "$f03=1; $h4=2"},
+		{"reorder", "-e", "-f", "i", "then", "rename", "i,z", "then", "reorder", "-f", "z", "then", "put", "$i=5"},
+		{"put", "$[[1]]=\"first\"; $i=9; $first=8"},
+		{"sort-within-records", "then", "rename", "i,z", "then", "put", "$i=1; unset $z"},
+		{"template", "-f", "z,i,g", "then", "rename", "z,i3", "then", "put", "$z=4"},
+	} {
+		for _, fl := range []string{"--hash-records", "--no-hash-records"} {
+			add(chain{Flags: []string{fl}, Args: wc, Name: "hashcmp-wide: " + strings.Join(wc, " ")})
+		}
+	}
 	// nested reader
 	add(chain{Args: S("join -j g -f @L"), Aux: "g=a,l=1\ng=b,l=2\n"})
 	add(chain{Args: S("join -j g -f @L then head -n 1"), Aux: "g=a,l=1\ng=b,l=2\n"})
@@ -662,6 +684,8 @@ func enumerate(quick bool) (pairs [][]*config) {
 		input{Name: "csv-two-files-other-header", Fmt: "csv", Files: []string{"i,g\n1,a\n2,b\n", "g,i\nb,3\n"}, Recs: []string{"i=1,g=a", "i=2,g=b", "g=b,i=3"}},
 		input{Name: "csvlite-two-files-same-header", Fmt: "csvlite", Files: []string{"i,g\n1,a\n", "i,g\n2,b\n3,a\n"}, Recs: []string{"i=1,g=a", "i=2,g=b", "i=3,g=a"}},
 		input{Name: "dkvp-late-group", Fmt: "dkvp", Files: []string{"i=1,g=a\ni=2,g=a\ni=3,g=a\ni=4,g=b\n"}, Recs: []string{"i=1,g=a", "i=2,g=a", "i=3,g=a", "i=4,g=b"}},
+		input{Name: "dkvp-wide13", Fmt: "dkvp", Files: []string{"i=1,g=a,f03=3,f04=4,f05=5,f06=6,f07=7,f08=8,f09=9,f10=10,f11=11,f12=12,f13=13\ni=2,g=b,f03=3,f04=4,f05=5,f06=6,f07=7,f08=8,f09=9,f10=10,f11=11,f12=12,f13=13\n"},
+			Recs: []string{"i=1,g=a,f03=3,f04=4,f05=5,f06=6,f07=7,f08=8,f09=9,f10=10,f11=11,f12=12,f13=13", "i=2,g=b,f03=3,f04=4,f05=5,f06=6,f07=7,f08=8,f09=9,f10=10,f11=11,f12=12,f13=13"}},
 		input{Name: "dkvp-heterogeneous", Fmt: "dkvp", Files: []string{"i=1,g=a\nh=2\ni=3,g=b,k=9\ni=4\n"}, Recs: []string{"i=1,g=a", "h=2", "i=3,g=b,k=9", "i=4"}},
 	)
 	byName := map[pairKey][]*config{}
@@ -687,8 +711,11 @@ func enumerate(quick bool) (pairs [][]*config) {
 				}
 				ch.Batch = []int{1}
 			}
+			if strings.HasPrefix(ch.Name, "hashcmp-wide:") != (in.Name == "dkvp-wide13") {
+				continue
+			}
 			custom := strings.Contains(in.Name, "-") && !strings.Contains(in.Name, ":N=")
-			if custom {
+			if custom && in.Name != "dkvp-wide13" {
 				keep := map[string]bool{"cat": true, "head -n 1": true, "head -n 2": true, "head -n 2 then head -n 1": true, "tac": true, "tail -n 1": true,
 					"tee @T then head -n 1": true, "cat then head -n 2": true, "step -a delta,shift -f i": true, "cat -n -g g": true, "count-similar -g g": true,
 					`put print "p".$i`: true, "nothing": true, "sort -nr i": true, "fill-down -a -f g then sec2gmt i": true}
